@@ -34,7 +34,7 @@ CASES = {'quick': 600, 'thorough': 8000}
 
 
 def strategy(tier):
-    base = gen.any_profile(reopen_ok=True, weights={'mixed': 5, 'growshrink': 1, 'deep': 4, 'links': 4, 'boot': 4, 'hybrid': 1})
+    base = gen.any_profile(reopen_ok=True, weights={'mixed': 5, 'growshrink': 1, 'deep': 4, 'links': 4, 'boot': 4, 'hybrid': 1, 'reloctwins': 2, 'samename': 1, 'bootlinks': 1})
 
     def weave(p, bads):
         ops = list(p['ops'])
@@ -43,7 +43,10 @@ def strategy(tier):
             idx = min(len(out), (pos * (len(ops) + 1)) // 1000 + k)
             out.insert(idx, dict(b, n=200000 + k))
         return dict(p, ops=out)
-    return st.tuples(st.builds(weave, base, st.lists(st.tuples(st.integers(0, 999), gen.bad), min_size=1, max_size=3)), st.none())
+    woven = st.builds(weave, base, st.lists(st.tuples(st.integers(0, 999), gen.bad), min_size=1, max_size=3))
+    # scenario profiles bring the refused call (and the history it needs) with them
+    scen = gen.relocname(reopen_ok=False).map(lambda p: dict(p, profile='relocname'))
+    return st.tuples(gen.weighted([(woven, 14), (scen, 1)]), st.none())
 
 
 def oracle(program, aux):
@@ -63,13 +66,15 @@ def oracle(program, aux):
         isbad = a.ops[i]['k'] == 'bad'
         before = None
         if isbad and not a.problems:
-            before = a.write()
-            if before is None:
+            before = a.write(probe=True)
+            if before is None and (a.dead or a.problems):
                 break
         res = a.step(i)
         if isbad and res == 'bad-refused' and before is not None:
-            after = a.write()
+            after = a.write(probe=True)
             row = a.bad_results[-1][1]
+            if after is None and not (a.dead or a.problems):
+                continue
             if after is None:
                 pr = a.problems[-1]
                 failures.append(('C14/write-fails-after-refusal/%s/%s' % (row, pr.sig.split('/')[-1]), 'write-after-refusal',
@@ -130,6 +135,10 @@ def oracle(program, aux):
                 reg = region(ia if off < len(ia) else ib, min(off, max(len(ia), len(ib)) - 1))
                 failures.append(('C14/final-image-differs/%s/%s' % (rowtag, reg), 'state-changed',
                                  'final image differs from the twin run without the refused call(s) %s at byte %d (sector %d, %s); lengths %d vs %d' % (rows, off, off // 2048, reg, len(ia), len(ib))))
+    if not failures and not b.dead and not b.problems and b.refused:
+        # calls of the history itself that the library refused (the model holds them valid: over-refusals) are raising
+        # calls like any other: a third run without them must behave and master the same
+        failures += over_refusal_twin(twin_prog, b, a)
     if not failures and not a.dead and not b.dead and not a.problems and not b.problems:
         # teardown: give everything back (El Torito, every file, every symlink, every directory bottom-up) in both
         # runs and compare again - counters, link counts and reservations that a refused call left behind only
@@ -163,6 +172,53 @@ def oracle(program, aux):
     a.close()
     b.close()
     return a, failures
+
+
+def over_refusal_twin(prog, b, a):
+    """The first call of the history that the library refused is taken out; everything else - the images and which of the
+    later calls are refused - has to stay the same."""
+    out = []
+    if any(m_.startswith('write_fp:') for _, m_ in b.refused):
+        return out          # a hybridization dropped at mastering time: the histories are not comparable
+    gone = sorted(i for i, m_ in b.refused if not m_.startswith('query:'))
+    if not gone:
+        return out
+    first = gone[0]
+    kind = b.ops[first]['k']
+    why = [m_ for i, m_ in b.refused if i == first][0][:100]
+    c = Run(dict(prog, ops=[(dict(o, nocall=1) if i == first else o) for i, o in enumerate(prog['ops'])]))
+    c.run_all()
+    a.stats['over_refusal_twins'] = a.stats.get('over_refusal_twins', 0) + 1
+    if c.dead or c.problems:
+        a.stats['c01_domain'] += 1
+        c.close()
+        return out
+    later_b = sorted(b.ops[i].get('n') for i in gone[1:])
+    later_c = sorted(c.ops[i].get('n') for i, m_ in c.refused if not m_.startswith(('query:', 'nocall:')))
+    if later_b != later_c:
+        only_b = [n for n in later_b if n not in later_c]
+        only_c = [n for n in later_c if n not in later_b]
+        ex = [o['k'] for o in prog['ops'] if o.get('n') in (only_b + only_c)[:3]]
+        out.append(('C14/over-refusal/later-edit-refused-differently/%s/%s' % (kind, ex[0] if ex else '?'), 'later-edits',
+                    'the library refused the %s call at step %d (%s); of the later calls %d are refused only after that refusal and %d only without it (%s)'
+                    % (kind, first, why, len(only_b), len(only_c), ', '.join(ex))))
+        c.close()
+        return out
+    ib, ic = b.write(), c.write()
+    if ib is None and ic is not None:
+        pr = b.problems[-1]
+        out.append(('C14/over-refusal/final-write-fails/%s/%s' % (kind, pr.sig.split('/')[-1]), 'write-after-refusal',
+                    'the library refused the %s call at step %d (%s); the final write_fp then raised: %s (the same history without that call is written cleanly)'
+                    % (kind, first, why, pr.msg[:300])))
+    elif ib is not None and ic is not None:
+        off = first_diff(ib, ic)
+        if off is not None:
+            reg = region(ib if off < len(ib) else ic, min(off, max(len(ib), len(ic)) - 1))
+            out.append(('C14/over-refusal/final-image-differs/%s/%s' % (kind, reg), 'state-changed',
+                        'the library refused the %s call at step %d (%s); the final image differs from the one of the same history without that call at byte %d (sector %d, %s); lengths %d vs %d'
+                        % (kind, first, why, off, off // 2048, reg, len(ib), len(ic))))
+    c.close()
+    return out
 
 
 def teardown_ops(n_applied):
